@@ -6,7 +6,7 @@ from vcheck import core, svccheck, svc
 def run(c):
   c.proof_stage()
   backends = ['ram', 'sqlmem']
-  cfgs = svccheck.identify_flags(c, backends, report=('metadataAtomic',))
+  cfgs = svccheck.identify_flags(c, backends, report=('metadataAtomic', 'createKeepsInfeasible'))
   n = 120 if c.tier == 'quick' else 1500
   svccheck.differential(c, 'C01', n, backends, cfgs, lengths=(4, 24) if c.tier == 'quick' else (4, 40))
   # the client library (clients.Study / clients.Trial / VizierClient) on top of the service: Model/Client.lean
